@@ -159,6 +159,16 @@ theorem C10_seg_machine_arithmetic {lo hi : Int} {l : Layout} (hlo : inI64 lo) (
   exact ⟨by rw [mach_layoutNew hlo hhi hle hlen, h], mach_count h hlo hhi hle hlen,
     (mach_index h hlo hhi hlen h1 (by omega)).1, (mach_index h hlo hhi hlen (by omega) h3).1, m1, m2, m3, m4⟩
 
+/-- for the 32-bit coordinate types (`R = i32`, `u32`, and everything narrower: `i64: From<R>`) the contract
+has no length condition at all: every domain `lo ≤ hi` is within it -/
+theorem C14_32bit_domains {lo hi : Int} (hlo : -(2 ^ 31 : Int) ≤ lo) (hhi : hi < (2 ^ 32 : Int)) (hle : lo ≤ hi) :
+    layoutNew lo hi = some (Layout.new lo hi) := by
+  apply mach_layoutNew
+  · unfold inI64; simp only [two63]; constructor <;> omega
+  · unfold inI64; simp only [two63]; constructor <;> omega
+  · exact hle
+  · simp only [two63]; omega
+
 /-! non-vacuity: the widest 32-bit domain, a 64-bit domain of maximal length, and the overflow just beyond it -/
 example : layoutNew (-2147483648) 2147483647 = some (some ⟨-2147483648, 2147483647, 27⟩) := by decide
 example : layoutNew (-4611686018427387904) 4611686018427387902 =
